@@ -1,4 +1,4 @@
-import TinsModel.Reassembly.Lifetime
+import TinsModel.Reassembly.PolicyRefine
 /-
   Property C08 — IPv4 fragment reassembly reconstructs the original datagram.
 
@@ -292,6 +292,18 @@ theorem interleave_independent_all (parse : UpperParse) (ops : List Op) (p : Pkt
     alLookup (reach parse ops) (makeKey p.hdr) = alLookup (reach parse (projKey (makeKey p.hdr) ops)) (makeKey p.hdr) :=
   ⟨process_snd_of_lookup parse p (reach_lookup_proj parse _ ops), reach_lookup_proj parse _ ops⟩
 
+/-- **model_refines_policy.**  For EVERY session — arbitrary packets, `clear_streams`, `remove_stream`, any order — the
+    code-shaped model of `IPv4Reassembler` (sorted fragment vector, running byte counters, contiguity re-check) reports
+    exactly what the policy reference of TinsModel/Reassembly/Policy.lean reports (per key: a fragment is accepted
+    unless its offset is taken; TDL = end of the most recently accepted fragment without more-fragments; completion is
+    attempted when the accepted bytes equal TDL and offset 0 is held; the attempt succeeds iff the accepted fragments
+    sorted by offset cover `[0, TDL)` exactly and header + TDL ≤ 65535, otherwise the set is dropped): same status, same
+    packet left behind, same number of open streams after every call, and the stream table is the image of the
+    reference's state. -/
+theorem model_refines_policy (parse : UpperParse) (ops : List Op) :
+    sessionOut parse [] ops = polOut parse [] ops ∧ reach parse ops = absPState (polReach parse ops) :=
+  session_absP parse ops [] [] (by intro x hx; simp at hx) rfl
+
 /-! ### stream table lifetime -/
 
 /-- after ANY session there is at most one open stream per distinct key carried by a fragment packet of the session -/
@@ -443,6 +455,9 @@ example : statuses [.pkt (hp 16 false (b8 16)), .pkt (hp 8 false (b8 8)), .pkt (
 example : statuses [.pkt (hp 0 true (b8 0)), .pkt (hp 24 true (b8 24)), .pkt (hp 16 false (b8 16))] =
     [(some .fragmented, 1), (some .fragmented, 1), (some .fragmented, 0)] := by decide
 
+/-- `model_refines_policy`: the policy reference on two conflicting last fragments -/
+example : (polOut upperParseConcrete [] [.pkt (hp 8 false (b8 8)), .pkt (hp 16 false (b8 16)), .pkt (hp 0 true (b8 0))]).map
+    (fun x => (x.1.map (·.1), x.2)) = [(some .fragmented, 1), (some .fragmented, 1), (some .reassembled, 0)] := by decide
 /-- `never_from_incomplete_all` applies: a hostile session that does end in REASSEMBLED -/
 example : (process upperParseConcrete
       (reach upperParseConcrete [.pkt (hp 8 false (b8 8)), .pkt (hp 16 false (b8 16)), .pkt (hp 8 true (b8 70))])
